@@ -229,6 +229,8 @@ type World struct {
 	// OnPipeWrite observes every write to a pipe before it is queued (raw
 	// stdout/stderr taps); it runs on the writer's goroutine.
 	OnPipeWrite func(pipe string, p *Proc, data []byte)
+	// OnConnWrite observes every socket write (wire sniffer); it runs on the writer's goroutine.
+	OnConnWrite func(e *Endpoint, data []byte)
 
 	HostPanic string
 	Fatal     func(msg string) // called on host panic
